@@ -340,6 +340,25 @@ def _propagate_literal_iterables(f, module_tree):
             lit = literal_for(n.iter)
             if lit is not None:
                 n.iter = copy.deepcopy(lit)
+            elif isinstance(n.iter, ast.Call) and isinstance(
+                    n.iter.func, ast.Name) and n.iter.func.id == 'zip' \
+                    and not n.iter.keywords:
+                # zip(names, lengths, ...) of such names
+                for i, a in enumerate(n.iter.args):
+                    l2 = literal_for(a)
+                    if l2 is None and isinstance(a, ast.Name):
+                        # a zip column may also hold plain names /
+                        # attribute reads
+                        vals = local.get(a.id)
+                        if vals and len(vals) == 1 and isinstance(
+                                vals[0], (ast.Tuple, ast.List)) and \
+                                vals[0].elts and all(isinstance(
+                                    y, (ast.Constant, ast.Name,
+                                        ast.Attribute))
+                                    for y in vals[0].elts):
+                            l2 = vals[0]
+                    if l2 is not None:
+                        n.iter.args[i] = copy.deepcopy(l2)
             elif isinstance(n.iter, (ast.Tuple, ast.List)):
                 # a literal of pairs whose second members are such names
                 for row in n.iter.elts:
@@ -350,9 +369,106 @@ def _propagate_literal_iterables(f, module_tree):
                                 row.elts[i] = copy.deepcopy(l2)
 
 
+def _inline_attr_aliases(f):
+    """`a = b.c` (a plain attribute read, `a` bound once, every use of `a`
+    after it, `b.c` never stored and `b` not re-bound later in the
+    function) is read as if `b.c` were written at each use: local aliases
+    for handles (`attrs = h5grp.attrs`, `create = grp.create_dataset`)."""
+    params = {a.arg for a in f.args.args + f.args.kwonlyargs}
+    stores, attr_stores = {}, set()
+    for n in ast.walk(f):
+        if isinstance(n, ast.Name) and isinstance(n.ctx, (ast.Store,
+                                                          ast.Del)):
+            stores.setdefault(n.id, []).append(n)
+        if isinstance(n, ast.Attribute) and isinstance(
+                n.ctx, (ast.Store, ast.Del)):
+            d = _dotted(n)
+            if d:
+                attr_stores.add(d)
+        if isinstance(n, ast.AugAssign) and isinstance(n.target,
+                                                       ast.Attribute):
+            d = _dotted(n.target)
+            if d:
+                attr_stores.add(d)
+    changed = False
+    for holder in ast.walk(f):
+        for fld in ('body', 'orelse', 'finalbody'):
+            blk = getattr(holder, fld, None)
+            if not isinstance(blk, list):
+                continue
+            for st in list(blk):
+                if not (isinstance(st, ast.Assign) and len(st.targets) == 1
+                        and isinstance(st.targets[0], ast.Name) and
+                        isinstance(st.value, ast.Attribute)):
+                    continue
+                a = st.targets[0].id
+                path = _dotted(st.value)
+                if path is None or a in params or len(stores.get(a, [])) != 1:
+                    continue
+                root = path.split('.')[0]
+                if any(path == p_ or path.startswith(p_ + '.') or
+                       p_.startswith(path + '.') for p_ in attr_stores):
+                    continue
+                if any(x.lineno > st.lineno for x in stores.get(root, [])):
+                    continue
+                uses = [x for x in ast.walk(f) if isinstance(x, ast.Name)
+                        and x.id == a and isinstance(x.ctx, ast.Load)]
+                if not uses or any(x.lineno <= st.lineno for x in uses):
+                    continue
+                # only handle-like uses: called, subscripted or an
+                # attribute taken
+                par = {}
+                for p_ in ast.walk(f):
+                    for ch in ast.iter_child_nodes(p_):
+                        par[id(ch)] = p_
+                ok = all(isinstance(par.get(id(x)), (ast.Call, ast.Subscript,
+                                                     ast.Attribute)) and (
+                    getattr(par[id(x)], 'func', None) is x or
+                    getattr(par[id(x)], 'value', None) is x)
+                    for x in uses)
+                if not ok:
+                    continue
+
+                class _R(ast.NodeTransformer):
+                    def visit_Name(self, node):
+                        if node.id == a and isinstance(node.ctx, ast.Load):
+                            return ast.copy_location(
+                                copy.deepcopy(st.value), node)
+                        return node
+                for other in ast.walk(f):
+                    for fld2 in ('body', 'orelse', 'finalbody'):
+                        b2 = getattr(other, fld2, None)
+                        if isinstance(b2, list):
+                            for i, s2 in enumerate(b2):
+                                if s2 is not st and isinstance(s2, ast.stmt):
+                                    b2[i] = _R().visit(s2)
+                    if isinstance(other, ast.Try):
+                        for h in other.handlers:
+                            h.body = [_R().visit(s2) for s2 in h.body]
+                blk.remove(st)
+                if not blk:
+                    blk.append(ast.copy_location(ast.Pass(), st))
+                changed = True
+    return changed
+
+
+def _dotted(e):
+    parts = []
+    while isinstance(e, ast.Attribute):
+        parts.append(e.attr)
+        e = e.value
+    if isinstance(e, ast.Name):
+        parts.append(e.id)
+        return '.'.join(reversed(parts))
+    return None
+
+
 def normalize(func, module_tree=None, keep=None):
     """Normalised deep copy of ``func`` (a FunctionDef)."""
     f = copy.deepcopy(func)
+    for _ in range(3):
+        if not _inline_attr_aliases(f):
+            break
     helpers = {}
     if module_tree is not None:
         # module-level expression helpers that are defined exactly once
@@ -683,6 +799,26 @@ class _StmtInliner:
             elif isinstance(st, ast.Return) and isinstance(st.value,
                                                            ast.Call):
                 call, kind = st.value, 'return'
+            if call is None and isinstance(st, ast.If):
+                # `if helper(..):` / `if not helper(..):` / `if helper(..)
+                # <op> simple:` - the call is the first thing the statement
+                # evaluates, so its body can run just before the test
+                t = st.test
+                holder, attr = st, 'test'
+                if isinstance(t, ast.UnaryOp) and isinstance(t.op, ast.Not):
+                    holder, attr, t = t, 'operand', t.operand
+                elif isinstance(t, ast.Compare) and all(
+                        _simple(c_) for c_ in t.comparators):
+                    holder, attr, t = t, 'left', t.left
+                if isinstance(t, ast.Call):
+                    fd, recv = self.resolve(t)
+                    if fd is not None:
+                        res = self.expand(t, fd, recv)
+                        if res is not None and res[1] is not None:
+                            out.extend(res[0])
+                            setattr(holder, attr, res[1])
+                            out.append(st)
+                            continue
             if call is not None and not isinstance(
                     st, (ast.FunctionDef, ast.ClassDef)):
                 fd, recv = self.resolve(call)
@@ -1313,7 +1449,137 @@ def _split_tuple_assigns(tree):
                 split(h.body)
 
 
+def _expand_literal_generators(tree):
+    """A nested generator whose body is nothing but `yield E1; yield E2;
+    ...` is a literal sequence written as a function.  `for x in g(a, b):
+    BODY` is read as BODY once per E_i, `t1, .., tn = g(a, b)` as the n
+    assignments; the parameters are bound to fresh names first (the
+    arguments are evaluated once, at the call)."""
+    counter = [0]
+    for f in [n for n in ast.walk(tree) if isinstance(n, ast.FunctionDef)]:
+        gens = {}
+        for st in f.body:
+            if isinstance(st, ast.FunctionDef) and not st.decorator_list:
+                body = [b for b in st.body if not (
+                    isinstance(b, ast.Expr) and isinstance(b.value,
+                                                           ast.Constant))]
+                a = st.args
+                if body and all(isinstance(b, ast.Expr) and isinstance(
+                        b.value, ast.Yield) and b.value.value is not None
+                        for b in body) and not (
+                        a.vararg or a.kwarg or a.kwonlyargs or a.defaults):
+                    gens[st.name] = ([x.arg for x in a.args],
+                                     [b.value.value for b in body], st)
+        if not gens:
+            continue
+        # every reference must be one of the two call forms
+        refs = {g: 0 for g in gens}
+        forms = {g: 0 for g in gens}
+        for n in ast.walk(f):
+            if isinstance(n, ast.Name) and n.id in gens and isinstance(
+                    n.ctx, ast.Load):
+                refs[n.id] += 1
+
+        def call_of(e):
+            if isinstance(e, ast.Call) and isinstance(e.func, ast.Name) \
+                    and e.func.id in gens and not e.keywords and len(
+                    e.args) == len(gens[e.func.id][0]) and not any(
+                    isinstance(x, ast.Starred) for x in e.args):
+                return e.func.id
+            return None
+        for n in ast.walk(f):
+            if isinstance(n, ast.For) and call_of(n.iter) and not n.orelse:
+                forms[call_of(n.iter)] += 1
+            if isinstance(n, ast.Assign) and len(n.targets) == 1 and \
+                    isinstance(n.targets[0], ast.Tuple) and call_of(
+                    n.value) and len(n.targets[0].elts) == len(
+                    gens[call_of(n.value)][1]):
+                forms[call_of(n.value)] += 1
+        usable = {g for g in gens if refs[g] == forms[g] and refs[g] > 0}
+        if not usable:
+            continue
+
+        def bind(g, call, targets=None, body=None):
+            counter[0] += 1
+            params, exprs, _ = gens[g]
+            # direct substitution when the arguments are plain names /
+            # constants that nothing overwrites before they are read
+            if all(isinstance(a_, (ast.Name, ast.Constant))
+                   for a_ in call.args):
+                argn = {p_: a_ for p_, a_ in zip(params, call.args)}
+                safe = True
+                if targets is not None:
+                    done = set()
+                    for t, e in zip(targets, exprs):
+                        used = {argn[x.id].id for x in ast.walk(e)
+                                if isinstance(x, ast.Name) and x.id in argn
+                                and isinstance(argn[x.id], ast.Name)}
+                        if used & done:
+                            safe = False
+                        done |= {x.id for x in ast.walk(t)
+                                 if isinstance(x, ast.Name)}
+                if body is not None:
+                    stored = {x.id for b in body for x in ast.walk(b)
+                              if isinstance(x, ast.Name) and isinstance(
+                                  x.ctx, ast.Store)}
+                    if stored & {a_.id for a_ in call.args
+                                 if isinstance(a_, ast.Name)}:
+                        safe = False
+                if safe:
+                    return [], [_subst(e, argn) for e in exprs]
+            pre, m = [], {}
+            for p_, a_ in zip(params, call.args):
+                tmp = '_gen%d_%s' % (counter[0], p_)
+                pre.append(ast.copy_location(ast.Assign(
+                    targets=[ast.Name(id=tmp, ctx=ast.Store())],
+                    value=copy.deepcopy(a_)), call))
+                m[p_] = ast.Name(id=tmp, ctx=ast.Load())
+            return pre, [_subst(e, m) for e in exprs]
+
+        def rewrite(blk):
+            out = []
+            for st in blk:
+                for fld in ('body', 'orelse', 'finalbody'):
+                    b2 = getattr(st, fld, None)
+                    if isinstance(b2, list) and b2 and isinstance(
+                            b2[0], ast.stmt) and not isinstance(
+                            st, ast.FunctionDef):
+                        setattr(st, fld, rewrite(b2))
+                if isinstance(st, ast.Try):
+                    for h in st.handlers:
+                        h.body = rewrite(h.body)
+                if isinstance(st, ast.FunctionDef) and st.name in usable:
+                    continue
+                if isinstance(st, ast.For) and call_of(st.iter) in usable \
+                        and not st.orelse and isinstance(st.target,
+                                                         ast.Name) and \
+                        not any(isinstance(x, (ast.Break, ast.Continue))
+                                for b in st.body for x in ast.walk(b)):
+                    pre, exprs = bind(call_of(st.iter), st.iter,
+                                      body=st.body)
+                    out.extend(pre)
+                    for e in exprs:
+                        for b in st.body:
+                            out.append(_subst(b, {st.target.id: e}))
+                    continue
+                if isinstance(st, ast.Assign) and len(st.targets) == 1 and \
+                        isinstance(st.targets[0], ast.Tuple) and call_of(
+                        st.value) in usable:
+                    pre, exprs = bind(call_of(st.value), st.value,
+                                      targets=st.targets[0].elts)
+                    out.extend(pre)
+                    for t, e in zip(st.targets[0].elts, exprs):
+                        out.append(ast.copy_location(ast.Assign(
+                            targets=[t], value=e), st))
+                    continue
+                out.append(st)
+            return out
+        f.body = rewrite(f.body)
+        ast.fix_missing_locations(f)
+
+
 def canonical_forms(tree):
+    _expand_literal_generators(tree)
     _split_tuple_assigns(tree)
     _inline_return_temps(tree)
     new = _Canon().visit(tree)
